@@ -136,7 +136,18 @@ META["C19"] = dict(
           "(translated). Not modelled: TLS, gRPC/HTTP framing, securecookie's cryptography, GitHub's API (stubbed)."),
     technique="Coq proof (decision functions; finite guard tables by vm_compute lifted with forallb_forall) + exhaustive request lattice on the real servers")
 
+META["C16"] = dict(
+    text=("Theorems (Props/C16.v): an entry point that recovers maps every inner outcome to a value or an error, never a crash; every "
+          "entry point that evaluates client-supplied SQL, dimension expressions or payloads (sql.Parse, planner.Plan, table.insert, "
+          "rowStore.safeUpdate, iteration.safeOnValue, mapPartitionRequest) has a recover — checked on the site list translated from "
+          "the source on this run; sql.Parse/TableFor no longer assert the statement kind unchecked. Correspondence: hostile SQL and "
+          "insert payloads executed in crash-isolating worker processes against the real parser, planner and DB."),
+    design_ref="DESIGN.md section 4 / C16",
+    note=("PARTIAL by nature: 'all byte strings' is proved only for zenodb's own dispatch structure (recover sites, checked assertion); the "
+          "external parser and goexpr are covered by generation only. Modelled: outcome classes; not modelled: what each function computes."),
+    technique="Coq proof over translated structural facts (recover sites, checked assertions) + crash-isolated fuzzing of the real entry points")
+
 NOT_APPLICABLE = [
     {"property_id": p, "reason": _PENDING}
-    for p in ["C02", "C10", "C11", "C12", "C13", "C16", "C20"]
+    for p in ["C02", "C10", "C11", "C12", "C13", "C20"]
 ]
